@@ -9,6 +9,10 @@
           call blocks, namespaces, loop state, includes, inheritance), data functions suspend at gates; gate-release orders
           are enumerated depth first (stateless replay) and sampled at random; each task's text is compared with the text
           of the same render alone on a fresh environment; a sample is repeated under a real asyncio loop.
+  L-e2e (autoescape)  a library imported without context (one cached module, shared Macro objects) whose macro bodies await a
+          gate, called from 2-3 renders with different effective autoescape (.html/.txt under select_autoescape, autoescape
+          true/false blocks, volatile `{% autoescape flag %}`, call blocks); every release order enumerated (capped), each
+          task compared with its solo render.
   shared  before/after every e2e schedule the attributes of the Environment, its loader and every cached Template are
           snapshotted: the only writes allowed are Template._module and entries of the template cache.
 """
@@ -54,9 +58,13 @@ CLAIM = dict(
          "over Gen/ModuleProtocol.lean (regenerated every run) _get_default_module_async is `if _module is None: _module = "
          "await make(); return _module` with no await between assignment and return, `_module` is the only Template "
          "attribute assigned after construction, the template cache the only Environment attribute assigned on the render "
-         "path, every render builds its own Context. Tie: protocol runs of 2-3 tasks x cost 0-3 x all schedules vs the "
+         "path, every render builds its own Context; shared_objects_immutable_after_construction - Macro, TemplateModule, "
+         "the module's Context and TemplateExpression (objects hanging off a cached module, shared by all renders) assign "
+         "to / mutate no attribute of self after __init__. Tie: protocol runs of 2-3 tasks x cost 0-3 x all schedules vs the "
          "Lean model (writes, finished, received value, slot); 2-3 concurrent renders of generated template sets under "
-         "~200 (quick) / ~5000 (thorough) gate-release orders, each task's text compared with its solo text; attribute "
+         "~200 (quick) / ~5000 (thorough) gate-release orders, each task's text compared with its solo text; a family of "
+         "renders with different effective autoescape (select_autoescape by extension, autoescape true/false/volatile "
+         "blocks) calling the awaiting macros of one cached library, all release orders enumerated for small cases; attribute "
          "snapshots of Environment/Template/loader before and after.",
     note="Partial: the model's shared-state list (= `_module` + template cache; lexer cache and spontaneous environments "
          "are compile-time) is checked by the source inventory and by snapshots on the explored runs, not proved complete; "
@@ -389,8 +397,13 @@ def counting_template_class(jinja2):
     return _COUNTING["cls"]
 
 
-def make_env(jinja2, templates):
-    env = jinja2.Environment(enable_async=True, loader=jinja2.DictLoader(dict(templates)))
+def make_env(jinja2, templates, autoescape=None):
+    kw = {}
+    if autoescape == "select-html":
+        kw["autoescape"] = jinja2.select_autoescape(["html"])
+    elif autoescape is not None:
+        kw["autoescape"] = bool(autoescape)
+    env = jinja2.Environment(enable_async=True, loader=jinja2.DictLoader(dict(templates)), **kw)
     env.template_class = counting_template_class(jinja2)
     env.globals["aw"] = aw
     return env
@@ -578,11 +591,118 @@ def run_asyncio(jinja2, templates, names, trace):
     return asyncio.run(main())
 
 
+# --------------------------------------------------------------------------------------------------
+# L-e2e (autoescape): macros of a cached module called from renders whose effective autoescape differs
+# --------------------------------------------------------------------------------------------------
+
+ESC_DATA = [{"who": "<a&1>", "items": ["<i>", "j&"], "flag": True},
+            {"who": "b<2>&", "items": ["k>"], "flag": False},
+            {"who": "'c'<3", "items": ["<l", "m&", "n"], "flag": True}]
+
+ESC_LIB_MACROS = [
+    "{% macro tag(x) %}<b>{{ aw(x) }}</b>{% endmacro %}",
+    "{% macro tag(x) %}<b>{{ x }}{{ aw(1) }}</b>{% endmacro %}",
+    "{% macro tag(x) %}{{ aw(x) }}<b>{{ aw(x) ~ '&' }}</b>{% endmacro %}",
+    "{% macro tag(x) %}<b>{% for y in [x, x] %}{{ aw(y) }}{% endfor %}</b>{% endmacro %}",
+]
+ESC_LIB_EXTRA = ("{% macro box() %}<div>{{ aw(2) }}{{ caller() }}</div>{% endmacro %}"
+                 "{% macro rows(xs) %}{% for i in xs %}{{ loop.index }}={{ tag(i) }}{% if not loop.last %},{% endif %}{% endfor %}{% endmacro %}")
+
+# (template name, source): the extension decides autoescape under select_autoescape(["html"])
+ESC_CALLERS = [
+    ("p.html", "{% from 'lib.html' import tag %}<p>{{ tag(who) }}</p>{{ who }}"),
+    ("m.txt", "{% import 'lib.html' as lib %}{{ lib.tag(who) ~ ' & <' ~ who ~ '>' }};{{ who }}"),
+    ("rows.html", "{% from 'lib.html' import rows %}<ul>{{ rows(items) }}</ul>"),
+    ("rows.txt", "{% import 'lib.html' as lib %}{{ lib.rows(items) }}|{{ who }}"),
+    ("on.txt", "{% import 'lib.html' as lib %}{% autoescape true %}{{ lib.tag(who) }}{{ who }}{% endautoescape %}{{ lib.tag(who) }}{{ who }}"),
+    ("off.html", "{% from 'lib.html' import tag %}{% autoescape false %}{{ tag(who) }}{{ who }}{% endautoescape %}{{ tag(who) }}"),
+    ("vol.txt", "{% import 'lib.html' as lib %}{% autoescape flag %}{{ lib.tag(who) }}{{ who }}{{ lib.tag(who) ~ who }}{% endautoescape %}"),
+    ("vol.html", "{% from 'lib.html' import tag %}{% autoescape not flag %}{{ tag(who) }}{{ who }}{% endautoescape %}{{ tag(who) }}"),
+    ("call.html", "{% from 'lib.html' import box %}{% call box() %}{{ who }}{{ aw(who) }}{% endcall %}"),
+    ("call.txt", "{% import 'lib.html' as lib %}{% call lib.box() %}{{ who }}{% endcall %}{{ who }}"),
+    ("set.txt", "{% import 'lib.html' as lib %}{% set v = lib.tag(who) %}{{ aw(1) }}{{ v ~ who }}"),
+]
+
+
+def l_autoescape(ctx, res, cov, jinja2):
+    rng = ctx.rng("autoescape")
+    scenarios = []
+    # fixed: every pair of one .html-like and one .txt-like caller with the first macro body, plus the seed's shape
+    fixed_pairs = [("p.html", "m.txt"), ("m.txt", "p.html"), ("on.txt", "m.txt"), ("off.html", "p.html"), ("vol.txt", "vol.txt"),
+                   ("vol.html", "p.html"), ("rows.html", "rows.txt"), ("call.html", "call.txt"), ("p.html", "p.html"),
+                   ("set.txt", "p.html"), ("p.html", "m.txt", "rows.html")]
+    for names in fixed_pairs:
+        scenarios.append((0, list(names), "select-html"))
+    callers = [n for n, _ in ESC_CALLERS]
+    for _ in range(ctx.pick(10, 120)):
+        n = rng.choice([2, 2, 3])
+        scenarios.append((rng.randrange(len(ESC_LIB_MACROS)), [rng.choice(callers) for _ in range(n)],
+                          rng.choice(["select-html", "select-html", True, False])))
+    schedules = 0
+    distinct = set()
+    diffs = 0
+    exhaustive = 0
+    cap = ctx.pick(70, 500)
+    kinds = {}
+    for macro_i, names, mode in scenarios:
+        templates = {"lib.html": ESC_LIB_MACROS[macro_i] + ESC_LIB_EXTRA, **dict(ESC_CALLERS)}
+        solo = []
+        for i, nm in enumerate(names):
+            env = make_env(jinja2, templates, mode)
+            r, _, _ = drive([env.get_template(nm).render_async(**ESC_DATA[i])], lambda s, a: 0)
+            solo.append(r[0])
+        if any(r[0] != "ok" for r in solo):
+            raise core.HarnessError(f"autoescape scenario does not render alone: {solo} {names}")
+        for nm in names:
+            kinds[nm] = kinds.get(nm, 0) + 1
+
+        def run_one(chooser_factory, templates=templates, names=names, mode=mode):
+            env = make_env(jinja2, templates, mode)
+            positions = []
+            results, trace, options = drive([env.get_template(nm).render_async(**ESC_DATA[i]) for i, nm in enumerate(names)],
+                                            chooser_factory(positions))
+            return (results, trace), positions, options
+
+        def check(payload, how, templates=templates, names=names, mode=mode, solo=solo):
+            nonlocal schedules, diffs
+            results, trace = payload
+            schedules += 1
+            distinct.add((macro_i, tuple(names), str(mode), tuple(trace)))
+            for i, (r, s) in enumerate(zip(results, solo)):
+                if r != s:
+                    diffs += 1
+                    res.violate("C37:concurrent-differs-from-alone",
+                                f"task {i} ({names[i]}, autoescape={mode}) rendered {r!r} concurrently ({how} schedule {trace}) but "
+                                f"{s!r} alone; the macros of lib.html (imported without context: one cached module) are called "
+                                f"from renders with different effective autoescape; lib {templates['lib.html'][:60]!r}, "
+                                f"callers {[templates[n] for n in names]}",
+                                {"templates": templates, "tasks": names, "schedule": trace, "task": i, "concurrent": r,
+                                 "alone": s, "autoescape": mode, "data": "ESC_DATA"})
+        n = 0
+        for payload in dfs_schedules(lambda prefix: run_one(lambda pos: chooser_from_prefix(prefix, pos)), cap):
+            check(payload, "dfs")
+            n += 1
+        if n < cap:
+            exhaustive += 1
+        else:
+            for _ in range(ctx.pick(10, 40)):
+                payload, _, _ = run_one(lambda pos: chooser_random(rng, pos))
+                check(payload, "random")
+        payload, _, _ = run_one(lambda pos: (lambda step, active: (pos.append(step % len(active)) or step % len(active))))
+        check(payload, "round-robin")
+    cov["autoescape"] = {"scenarios": len(scenarios), "schedules": schedules, "distinct_schedules": len(distinct),
+                         "scenarios_with_all_release_orders_enumerated": exhaustive, "differences": diffs,
+                         "caller_shapes": kinds}
+    return schedules, len(distinct)
+
+
 def run(ctx, res):
     jinja2 = core.import_jinja()
     cov = {}
     e1, d1 = l_unit(ctx, res, cov, jinja2)
     e2, d2 = l_e2e(ctx, res, cov, jinja2)
+    e3, d3 = l_autoescape(ctx, res, cov, jinja2)
+    e2, d2 = e2 + e3, d2 + d3
     res.coverage.update({
         "evaluations": e1 + e2,
         "distinct_nontrivial": d1 + d2,
@@ -603,15 +723,17 @@ def replay(ctx, case):
     if "templates" not in c or "tasks" not in c:
         return c
     names, trace = c["tasks"], list(c["schedule"])
-    env = make_env(jinja2, c["templates"])
+    mode = c.get("autoescape")
+    data = (lambda i: ESC_DATA[i]) if c.get("data") == "ESC_DATA" else task_data
+    env = make_env(jinja2, c["templates"], mode)
     it = iter(trace)
 
     def choose(step, active):
         want = next(it, None)
         return active.index(want) if want in active else 0
-    results, tr, _ = drive([env.get_template(nm).render_async(**task_data(i)) for i, nm in enumerate(names)], choose)
+    results, tr, _ = drive([env.get_template(nm).render_async(**data(i)) for i, nm in enumerate(names)], choose)
     solo = []
     for i, nm in enumerate(names):
-        e = make_env(jinja2, c["templates"])
-        solo.append(drive([e.get_template(nm).render_async(**task_data(i))], lambda s, a: 0)[0][0])
+        e = make_env(jinja2, c["templates"], mode)
+        solo.append(drive([e.get_template(nm).render_async(**data(i))], lambda s, a: 0)[0][0])
     return {"schedule": tr, "concurrent": results, "alone": solo}
